@@ -888,8 +888,22 @@ def inline_helpers(text):
                 hit = i
                 break
         if hit is None:
-            break
-        params, expr = INLINE_HELPERS[toks[hit].text]
+            # method helpers: `RECV.h(args)` where h = (["self", params..], expr) was registered as a method
+            for i, t in enumerate(toks):
+                if t.kind == "ident" and ("." + t.text) in INLINE_HELPERS and i + 1 < len(toks) and toks[i + 1].text == "(" and i > 0 and toks[i - 1].text == ".":
+                    hit = i
+                    break
+            if hit is None:
+                break
+            params, expr = INLINE_HELPERS["." + toks[hit].text]
+            r0 = recv_start(toks, hit - 1)
+            recv = text[toks[r0].start:toks[hit - 1].start]
+            if not _PLACE.match(recv):
+                raise Undecided(f"R25: receiver of helper method `{toks[hit].text}` is not a plain place")
+            method_recv = (r0, recv)
+        else:
+            params, expr = INLINE_HELPERS[toks[hit].text]
+            method_recv = None
         op = hit + 1
         cl = match_close(toks, op)
         # split arguments at depth-0 commas
@@ -905,6 +919,8 @@ def inline_helpers(text):
         last = text[start:toks[cl].start]
         if last.strip():
             args.append(last)
+        if method_recv is not None:
+            args = [method_recv[1]] + args
         if len(args) != len(params) or not all(_PLACE.match(a) for a in args):
             raise Undecided(f"R25: call of helper `{toks[hit].text}` with arguments that are not plain places")
         et = tokenize(expr)
@@ -917,7 +933,7 @@ def inline_helpers(text):
                 out.append(expr[pos:t_.start]); out.append("(" + args[params.index(t_.text)].strip() + ")"); pos = t_.end
         out.append(expr[pos:])
         ed = Edit(text)
-        ed.replace(toks[hit].start, toks[cl].end, "(" + "".join(out) + ")")
+        ed.replace(toks[method_recv[0]].start if method_recv is not None else toks[hit].start, toks[cl].end, "(" + "".join(out) + ")")
         text = ed.apply()
         n += 1
     return text, n
